@@ -52,15 +52,35 @@ Record series_in := mkSI { si_labels : list lbl; si_chunks : list chunk_in }.
 
 Inductive aobs :=
 | AOpenErr (e : rerr)                          (* re-opening the altered file failed *)
+| AOpenOk                                      (* it opened (alterations judged at open level) *)
 | ASeries (r : rres (list lbl * list cmeta))
+| APostings (r : rres (list N))
 | AChunk (r : rres (N * bstr)).
 
 Record alt := mkAlt {
-  a_file : Z;        (* -1: index file, k >= 0: chunk segment k *)
+  a_file : Z;        (* -1: series entry of the index; -2: symbol table / postings offset table / TOC
+                        of the index (judged at open); -3: a postings list of the index;
+                        k >= 0: chunk record in segment k *)
   a_pos : N;         (* byte position in that file *)
   a_byte : N;        (* new value (differs from the old one) *)
-  a_ref : N;         (* series ref / chunk ref of the entry that contains a_pos *)
-  a_obs : aobs
+  a_ref : N;         (* series ref / offset of the postings list / chunk ref containing a_pos *)
+  a_obs : aobs;
+  a_diff : N         (* bit i set: read API group i of the re-opened block returned, without an
+                        error, an answer different from the undamaged block's (judged by the
+                        harness over the whole API suite, see notes/C24.md); must be 0 *)
+}.
+
+(* ---- further queries on the undamaged block *)
+Inductive pred := PAll | PPrefix (p : bstr) | PEq (v : bstr).
+Inductive mkind := MEq | MNeq | MRePlus | MRePrefix.     (* n="v", n!="v", n=~".+", n=~"v.*" (v quoted) *)
+Record matcher := mkM { m_kind : mkind; m_name : bstr; m_val : bstr }.
+Record queries := mkQ {
+  q_slvals : list (bstr * list bstr);                       (* SortedLabelValues(name) *)
+  q_match : list (bstr * option pred * rres (list N));      (* PostingsForLabelMatching; None: PostingsForAllLabelValues *)
+  q_sel : list (bool * list matcher * rres (list N));       (* PostingsForMatchers; true: a block querier's Select (refs of the series returned) *)
+  q_lnames_m : list (list matcher * rres (list bstr));      (* LabelNames(matchers) *)
+  q_lvals_m : list (bstr * list matcher * rres (list bstr)); (* LabelValues(name, matchers), sorted by the harness (order unspecified) *)
+  q_lnfor : list (list N * rres (list bstr))               (* LabelNamesFor(list postings of these refs) *)
 }.
 
 Record case := mkCase {
@@ -69,15 +89,22 @@ Record case := mkCase {
   c_index : list N;
   c_segs : list (list N);
   c_open : rres block_obs;
+  c_q : queries;
   c_alts : list alt
 }.
 
 (* compact forms of the usual alteration outcome (the read failed with class e), with
    primitive integers for position, new byte and reference *)
 Definition ia (pos byte ref : int) (e : rerr) : alt :=
-  mkAlt (-1) (int_to_N pos) (int_to_N byte) (int_to_N ref) (ASeries (RErr e)).
+  mkAlt (-1) (int_to_N pos) (int_to_N byte) (int_to_N ref) (ASeries (RErr e)) 0.
 Definition ca (file pos byte ref : int) (e : rerr) : alt :=
-  mkAlt (Uint63.to_Z file) (int_to_N pos) (int_to_N byte) (int_to_N ref) (AChunk (RErr e)).
+  mkAlt (Uint63.to_Z file) (int_to_N pos) (int_to_N byte) (int_to_N ref) (AChunk (RErr e)) 0.
+Definition oa (pos byte : int) (e : rerr) : alt :=           (* open failed *)
+  mkAlt (-2) (int_to_N pos) (int_to_N byte) 0 (AOpenErr e) 0.
+Definition pa (pos byte off : int) (e : rerr) : alt :=       (* postings list read failed *)
+  mkAlt (-3) (int_to_N pos) (int_to_N byte) (int_to_N off) (APostings (RErr e)) 0.
+(* reference lists as primitive integers *)
+Definition rl (l : list int) : list N := map int_to_N l.
 
 (* ---------------------------------------------------------------- equality helpers *)
 Fixpoint list_eqb {A B} (f : A -> B -> bool) (a : list A) (b : list B) : bool :=
@@ -113,7 +140,9 @@ Definition bo_eqb (a b : block_obs) : bool :=
 Definition aobs_eqb (a b : aobs) : bool :=
   match a, b with
   | AOpenErr e, AOpenErr e' => rerr_eqb e e'
+  | AOpenOk, AOpenOk => true
   | ASeries x, ASeries y => rres_eqb sres_eqb x y
+  | APostings x, APostings y => rres_eqb (list_eqb N.eqb) x y
   | AChunk x, AChunk y => rres_eqb chk_eqb x y
   | _, _ => false
   end.
@@ -127,9 +156,8 @@ Definition m_series (r : ireader) (segs : list (list N)) (ref : N) : series_obs 
               end).
 
 (* the sequence of reads the harness performs on an opened block *)
-Definition model_read (index : list N) (segs : list (list N)) : rres block_obs :=
-  (r <-- open_index crc32c index ;;
-   _ <-- open_segs segs ;;
+Definition model_read_ir (r : ireader) (segs : list (list N)) : rres block_obs :=
+  (_ <-- open_segs segs ;;
    all <-- ir_postings crc32c r [] [] ;;
    let names := ir_label_names r in
    let lvals := map (fun n => (n, ir_label_values r n)) names in
@@ -139,12 +167,22 @@ Definition model_read (index : list N) (segs : list (list N)) : rres block_obs :
              ((([], []), ROk all) ::
               flat_map (fun '(n, vs) => map (fun v => ((n, v), ir_postings crc32c r n v)) vs) lvals)))%rres.
 
+Definition model_read (index : list N) (segs : list (list N)) : rres block_obs :=
+  (r <-- open_index crc32c index ;; model_read_ir r segs)%rres.
+
 (* an alteration is judged with the symbol table of the unaltered index: the harness only
    alters bytes of series entries, so a successful re-open yields the same table; a failing
    re-open is reported as AOpenErr and can never agree *)
 Definition model_alt (syms : list bstr) (index : list N) (segs : list (list N)) (a : alt) : aobs :=
-  if (a_file a <? 0)%Z then
+  if (a_file a =? -1)%Z then
     ASeries (series_at crc32c syms (alter (N.to_nat (a_pos a)) (a_byte a) index) (a_ref a))
+  else if (a_file a =? -2)%Z then
+    match open_index crc32c (alter (N.to_nat (a_pos a)) (a_byte a) index) with
+    | RErr e => AOpenErr e
+    | ROk _ => AOpenOk
+    end
+  else if (a_file a =? -3)%Z then
+    APostings (postings_at crc32c (alter (N.to_nat (a_pos a)) (a_byte a) index) (a_ref a))
   else
     let k := Z.to_nat (a_file a) in
     AChunk (chunk_of crc32c
@@ -159,8 +197,8 @@ Definition model_alt (syms : list bstr) (index : list N) (segs : list (list N)) 
 Definition bytes_at (bs : list N) (off : N) (expect : list N) : bool :=
   bytes_eqb (sub bs off (blen expect)) expect.
 
-Definition writer_agree (index : list N) (segs : list (list N)) (bo : block_obs) : bool :=
-  match open_index crc32c index with
+Definition writer_agree (r : ireader) (index : list N) (segs : list (list N)) (bo : block_obs) : bool :=
+  match ROk r with
   | RErr _ => false
   | ROk r =>
       let t := ir_toc r in
@@ -197,13 +235,71 @@ Definition writer_agree (index : list N) (segs : list (list N)) (bo : block_obs)
       forallb (fun seg => bytes_at seg 0 seg_header) segs
   end.
 
+(* ---- Reader.PostingsForLabelMatching / PostingsForAllLabelValues / SortedLabelValues on the model:
+   the entries of the offset table with that name, in table order, filtered by the predicate on
+   the value; their postings lists merged (index.Merge: ascending, without duplicates) *)
+Fixpoint prefixb (p v : bstr) : bool :=
+  match p, v with
+  | [], _ => true
+  | x :: p', y :: v' => (x =? y) && prefixb p' v'
+  | _ :: _, [] => false
+  end.
+Definition pred_ok (p : option pred) (v : bstr) : bool :=
+  match p with
+  | None | Some PAll => true
+  | Some (PPrefix q) => prefixb q v
+  | Some (PEq w) => bytes_eqb w v
+  end.
+Fixpoint insert_ref (x : N) (l : list N) : list N :=
+  match l with
+  | [] => [x]
+  | y :: r => if x <? y then x :: l else if x =? y then l else y :: insert_ref x r
+  end.
+Definition merge_refs (ls : list (list N)) : list N := fold_right (fun l acc => fold_right insert_ref acc l) [] ls.
+Fixpoint rres_all {A} (l : list (rres A)) : rres (list A) :=
+  match l with
+  | [] => ROk []
+  | ROk a :: r => match rres_all r with ROk t => ROk (a :: t) | RErr e => RErr e end
+  | RErr e :: _ => RErr e
+  end.
+Definition ir_postings_matching (r : ireader) (n : bstr) (p : option pred) : rres (list N) :=
+  match rres_all (map (fun '(_, _, off) => postings_at crc32c (ir_bytes r) off)
+                      (filter (fun '(n', v, _) => bytes_eqb n' n && pred_ok p v) (ir_po r))) with
+  | ROk ls => ROk (merge_refs ls)
+  | RErr e => RErr e
+  end.
+
+Definition pred_eqb (a b : option pred) : bool :=
+  match a, b with
+  | None, None | Some PAll, Some PAll => true
+  | Some (PPrefix x), Some (PPrefix y) | Some (PEq x), Some (PEq y) => bytes_eqb x y
+  | _, _ => false
+  end.
+
+Definition queries_agree (r : ireader) (q : queries) : bool :=
+  match ROk r with
+  | RErr _ => false
+  | ROk r =>
+      forallb (fun x => list_eqb bytes_eqb (snd x) (ir_label_values r (fst x))) (q_slvals q) &&
+      forallb (fun x => let '(n, p, res) := x in
+                        rres_eqb (list_eqb N.eqb) (ir_postings_matching r n p) res) (q_match q) &&
+      forallb (fun x => rres_eqb (list_eqb bytes_eqb) (label_names_for crc32c r (fst x) None) (snd x)) (q_lnfor q)
+  end.
+
 Definition agree (c : case) : bool :=
-  let m := model_read (c_index c) (c_segs c) in
-  rres_eqb bo_eqb m (c_open c) &&
-  match c_open c with ROk bo => writer_agree (c_index c) (c_segs c) bo | RErr _ => true end &&
-  match m with
-  | ROk bo => forallb (fun a => aobs_eqb (model_alt (bo_syms bo) (c_index c) (c_segs c) a) (a_obs a)) (c_alts c)
-  | RErr _ => match c_alts c with [] => true | _ => false end
+  match open_index crc32c (c_index c) with       (* the index is opened once for all parts *)
+  | RErr e => rres_eqb bo_eqb (RErr e) (c_open c) && match c_alts c with [] => true | _ => false end
+  | ROk r =>
+      let m := model_read_ir r (c_segs c) in
+      rres_eqb bo_eqb m (c_open c) &&
+      match c_open c with
+      | ROk bo => writer_agree r (c_index c) (c_segs c) bo && queries_agree r (c_q c)
+      | RErr _ => true
+      end &&
+      match m with
+      | ROk bo => forallb (fun a => aobs_eqb (model_alt (bo_syms bo) (c_index c) (c_segs c) a) (a_obs a)) (c_alts c)
+      | RErr _ => match c_alts c with [] => true | _ => false end
+      end
   end.
 
 (* ---------------------------------------------------------------- the property on the observations *)
@@ -298,12 +394,75 @@ Definition orig_chunk (bo : block_obs) (ref : N) : option (N * bstr) :=
   | _ => None
   end.
 
+(* ---- the further queries against the plain sorted-map reading of the block: a block IS the
+   list of (ref, label set) read back; every query is a filter over it *)
+Definition value_of (ls : list lbl) (n : bstr) : bstr :=
+  match find (fun l => bytes_eqb (fst l) n) ls with Some l => snd l | None => [] end.
+Definition nonempty (v : bstr) : bool := match v with [] => false | _ => true end.
+Definition matches (m : matcher) (ls : list lbl) : bool :=
+  let v := value_of ls (m_name m) in
+  match m_kind m with
+  | MEq => bytes_eqb v (m_val m)
+  | MNeq => negb (bytes_eqb v (m_val m))
+  | MRePlus => nonempty v
+  | MRePrefix => prefixb (m_val m) v
+  end.
+Definition selected (ms : list matcher) (ss : list (N * list lbl * list cmeta)) :=
+  filter (fun '(_, ls, _) => forallb (fun m => matches m ls) ms) ss.
+
+Definition queries_ok (bo : block_obs) (q : queries) : bool :=
+  match read_series bo with
+  | None => false
+  | Some ss =>
+      let refs l := map (fun '(r, _, _) => r) l in
+      let all_labels := flat_map (fun '(_, ls, _) => ls) ss in
+      let values_of n l := sort_u (filter nonempty (map (fun '(_, ls, _) => value_of ls n) l)) in
+      (* SortedLabelValues: one answer per label name, the sorted distinct values *)
+      list_eqb (fun x n => bytes_eqb (fst x) n && list_eqb bytes_eqb (snd x) (values_of n ss))
+               (q_slvals q) (bo_names bo) &&
+      (* PostingsForLabelMatching / PostingsForAllLabelValues: series carrying the name with a value the predicate accepts *)
+      forallb (fun x => let '(n, p, res) := x in
+                 match res with
+                 | ROk l => list_eqb N.eqb l
+                              (refs (filter (fun '(_, ls, _) => let v := value_of ls n in nonempty v && pred_ok p v) ss))
+                 | RErr _ => false
+                 end) (q_match q) &&
+      (* PostingsForMatchers, and Select of a block querier (which skips series without chunks) *)
+      forallb (fun x => let '(querier, ms, res) := x in
+                 match res with
+                 | ROk l => list_eqb N.eqb l
+                              (refs (filter (fun '(_, _, cs) => negb querier || match cs with [] => false | _ => true end)
+                                            (selected ms ss)))
+                 | RErr _ => false
+                 end) (q_sel q) &&
+      (* LabelNames(matchers): sorted distinct names of the selected series *)
+      forallb (fun x => match snd x with
+                        | ROk l => list_eqb bytes_eqb l (sort_u (map fst (flat_map (fun '(_, ls, _) => ls) (selected (fst x) ss))))
+                        | RErr _ => false
+                        end) (q_lnames_m q) &&
+      (* LabelValues(name, matchers): distinct values of the name over the selected series, ascending *)
+      forallb (fun x => let '(n, ms, res) := x in
+                 match res with
+                 | ROk l => list_eqb bytes_eqb l (values_of n (selected ms ss))
+                 | RErr _ => false
+                 end) (q_lvals_m q) &&
+      (* LabelNamesFor(refs): sorted distinct names of those series *)
+      forallb (fun x => match snd x with
+                        | ROk l => list_eqb bytes_eqb l
+                                     (sort_u (map fst (flat_map (fun '(_, ls, _) => ls)
+                                                         (filter (fun '(r, _, _) => existsb (N.eqb r) (fst x)) ss))))
+                        | RErr _ => false
+                        end) (q_lnfor q)
+  end.
+
 (* "reported as an error when it is read instead of being returned as data": an error, or —
    the only alternative the statement tolerates — data identical to the unaltered data *)
 Definition alt_ok (bo : block_obs) (a : alt) : bool :=
+  (a_diff a =? 0) &&      (* no read API of the re-opened block returned different data *)
   match a_obs a with
-  | AOpenErr _ => true
-  | ASeries (RErr _) | AChunk (RErr _) => true
+  | AOpenErr _ | AOpenOk => true
+  | ASeries (RErr _) | AChunk (RErr _) | APostings (RErr _) => true
+  | APostings (ROk x) => existsb (fun p => match snd p with ROk y => list_eqb N.eqb x y | RErr _ => false end) (bo_postings bo)
   | ASeries (ROk x) => match orig_series bo (a_ref a) with Some y => sres_eqb x y | None => false end
   | AChunk (ROk x) => match orig_chunk bo (a_ref a) with Some y => chk_eqb x y | None => false end
   end.
@@ -314,6 +473,7 @@ Definition holds (c : case) : bool :=
   | ROk bo =>
       consistent bo &&
       match c_input c with Some inp => matches_input inp bo | None => true end &&
+      queries_ok bo (c_q c) &&
       forallb (alt_ok bo) (c_alts c)
   end.
 
